@@ -426,7 +426,7 @@ fn c11_cfg(tier: Tier) -> ProgCfg {
     }
 }
 
-fn c11_grid(_tier: Tier) -> Vec<Program> {
+fn c11_grid(tier: Tier) -> Vec<Program> {
     // boundary timestamps x entry points, and every hostile key once
     let times: Vec<u128> = vec![0, 1, 1 << 63, u64::MAX as u128, 1 << 64, (1 << 64) + 1, u128::MAX - 1, u128::MAX];
     let mut out = Vec::new();
@@ -485,6 +485,16 @@ fn c11_grid(_tier: Tier) -> Vec<Program> {
                 crate::gen::normalise_write(&mut s);
                 out.push(Program { keys: vec![format!("late-commit-{ei}"), "x".into()], blobs: vec![Blob::new(40, 3)], steps: vec![Step { op: Op::Write(s), fl }] });
             }
+        }
+    }
+    // thorough tier: one index record of more than 64 MiB (nothing bounds the size of metadata)
+    if tier == Tier::Thorough {
+        for fl in [Fl::Sync, Fl::Async] {
+            let mut s = WriteSpec::simple(Some(0), 0);
+            s.entry = WEntry::Opts;
+            s.raw_metadata = Some(crate::gen::huge_raw_meta(19_500_000, 5));
+            s.time = Some("79".into());
+            out.push(Program { keys: vec!["record-of-70-MB".into(), "z".into()], blobs: vec![Blob::new(3, 1)], steps: vec![Step { op: Op::Write(WriteSpec::simple(Some(0), 0)), fl: Fl::Sync }, Step { op: Op::Write(s), fl }] });
         }
     }
     // an index record of more than 2 MiB (raw metadata of 600 KB spelled as a JSON array)
